@@ -12,6 +12,8 @@
 //	R12 runtime.GOMAXPROCS(n), runtime.NumCPU() -> verifsim.GOMAXPROCS(n), verifsim.NumCPU() (the simulated machine has 8 processors whatever the worker's own setting)
 //	    (R5 also covers time.Since and time.Until)
 //	R13 verifsim.Yield(site) before a receive statement, before a select of receives, first in the body of a range over a channel
+//	R14 verifsim.Yield(site+"+") after a send or receive statement, first in every communicating clause of a select, after sync.WaitGroup.Wait
+//	    (a goroutine that wakes up parks again at once: one goroutine of the code under test runs at a time whatever GOMAXPROCS is)
 //	R10 runtime.Gosched()            -> verifsim.Gosched()  (a politely spinning goroutine parks at the scheduler like at any other schedule point)
 //	R5  time.Now                     -> verifsim.Now
 //	R6  user.Current                 -> verifsim.CurrentUser
@@ -149,6 +151,7 @@ func doFile(p *packages.Package, f *ast.File, path string) error {
 		case *ast.SendStmt:
 			if c.Index() >= 0 { // a statement of a block (not the comm of a select case)
 				c.InsertBefore(yieldCall(relPos(fset, n.Pos())))
+				c.InsertAfter(yieldCall(relPos(fset, n.Pos()) + "+")) // (R14: and again once the send has gone through)
 				note(&rep.Rewritten, site{"R7", relPos(fset, n.Pos()), "send", ""})
 				rep.Counts["R7"]++
 				changed = true
@@ -159,6 +162,13 @@ func doFile(p *packages.Package, f *ast.File, path string) error {
 				if cc, ok := cl.(*ast.CommClause); ok {
 					if _, ok := cc.Comm.(*ast.SendStmt); ok {
 						hasSend = true
+					}
+					if cc.Comm != nil && c.Index() >= 0 {
+						// R14: whoever comes out of a communication parks again at once, so that exactly one
+						// goroutine of the code under test runs at any time whatever the number of processors
+						cc.Body = append([]ast.Stmt{yieldCall(relPos(fset, cc.Pos()) + "+")}, cc.Body...)
+						rep.Counts["R14"]++
+						changed = true
 					}
 				}
 			}
@@ -178,22 +188,44 @@ func doFile(p *packages.Package, f *ast.File, path string) error {
 		case *ast.ExprStmt:
 			if u, ok := n.X.(*ast.UnaryExpr); ok && u.Op == token.ARROW && c.Index() >= 0 {
 				c.InsertBefore(yieldCall(relPos(fset, n.Pos())))
+				c.InsertAfter(yieldCall(relPos(fset, n.Pos()) + "+"))
 				note(&rep.Rewritten, site{"R13", relPos(fset, n.Pos()), "receive", ""})
 				rep.Counts["R13"]++
 				changed = true
+			}
+			// R14: a goroutine that comes back from sync.WaitGroup.Wait parks again at once
+			if call, ok := n.X.(*ast.CallExpr); ok && c.Index() >= 0 {
+				if sel, ok := call.Fun.(*ast.SelectorExpr); ok && sel.Sel.Name == "Wait" {
+					if fn, ok := info.Uses[sel.Sel].(*types.Func); ok && fn.Pkg() != nil && fn.Pkg().Path() == "sync" && strings.Contains(fn.FullName(), "WaitGroup") {
+						c.InsertAfter(yieldCall(relPos(fset, n.Pos()) + "+"))
+						note(&rep.Rewritten, site{"R14", relPos(fset, n.Pos()), "WaitGroup.Wait", ""})
+						rep.Counts["R14"]++
+						changed = true
+					}
+				}
 			}
 		case *ast.AssignStmt:
 			if len(n.Rhs) == 1 && c.Index() >= 0 {
 				if u, ok := n.Rhs[0].(*ast.UnaryExpr); ok && u.Op == token.ARROW {
 					c.InsertBefore(yieldCall(relPos(fset, n.Pos())))
+					c.InsertAfter(yieldCall(relPos(fset, n.Pos()) + "+"))
 					note(&rep.Rewritten, site{"R13", relPos(fset, n.Pos()), "receive", ""})
 					rep.Counts["R13"]++
 					changed = true
 				}
 			}
 		case *ast.GoStmt:
+			spawn := &ast.AssignStmt{Lhs: []ast.Expr{ast.NewIdent("hrsimG")}, Tok: token.DEFINE,
+				Rhs: []ast.Expr{&ast.CallExpr{Fun: &ast.SelectorExpr{X: ast.NewIdent("verifsim"), Sel: ast.NewIdent("Spawn")}}}}
+			enter := &ast.ExprStmt{X: &ast.CallExpr{Fun: &ast.SelectorExpr{X: ast.NewIdent("verifsim"), Sel: ast.NewIdent("Enter")}, Args: []ast.Expr{ast.NewIdent("hrsimG")}}}
 			if fl, ok := n.Call.Fun.(*ast.FuncLit); ok {
-				fl.Body.List = append([]ast.Stmt{yieldCall(relPos(fset, n.Pos()))}, fl.Body.List...)
+				if c.Index() >= 0 {
+					// go func(...){...}(...)  ->  { hrsimG := verifsim.Spawn(); go func(...){ verifsim.Enter(hrsimG); verifsim.Yield(site); ... }(...) }
+					fl.Body.List = append([]ast.Stmt{enter, yieldCall(relPos(fset, n.Pos()))}, fl.Body.List...)
+					c.Replace(&ast.BlockStmt{List: []ast.Stmt{spawn, n}})
+				} else {
+					fl.Body.List = append([]ast.Stmt{yieldCall(relPos(fset, n.Pos()))}, fl.Body.List...)
+				}
 				note(&rep.Rewritten, site{"R7", relPos(fset, n.Pos()), "go func", ""})
 				rep.Counts["R7"]++
 				changed = true
@@ -218,8 +250,9 @@ func doFile(p *packages.Package, f *ast.File, path string) error {
 				if n.Call.Ellipsis.IsValid() {
 					call.Ellipsis = 1
 				}
-				lit := &ast.FuncLit{Type: &ast.FuncType{Params: &ast.FieldList{}}, Body: &ast.BlockStmt{List: []ast.Stmt{yieldCall(pos), &ast.ExprStmt{X: call}}}}
+				lit := &ast.FuncLit{Type: &ast.FuncType{Params: &ast.FieldList{}}, Body: &ast.BlockStmt{List: []ast.Stmt{enter, yieldCall(pos), &ast.ExprStmt{X: call}}}}
 				c.Replace(&ast.BlockStmt{List: []ast.Stmt{
+					spawn,
 					&ast.AssignStmt{Lhs: lhs, Tok: token.DEFINE, Rhs: rhs},
 					&ast.GoStmt{Call: &ast.CallExpr{Fun: lit}},
 				}})
